@@ -6,7 +6,7 @@ from common import Some, Nat, Raw, opt, coq
 LEVEL = "proof"
 COQ_IMPORTS = ["Tie.C20"]
 RULE = ("planar disks: jittered grids (2x2..7x7), fans, strips, L-shaped (non-convex) outlines, with scrambled vertex numbering, in arbitrary 3D "
-        "pose and scale 0.1..100; curved disks (paraboloid caps) for invariance under rigid motion; rejection inputs: closed boxes, annuli (two "
+        "pose and scale 0.1..100; curved disks (paraboloid caps) for invariance under rigid motion; rejection inputs: closed boxes, two fans touching at a vertex, a disk together with a closed box, annuli (two "
         "boundary loops), two components, non-manifold fins; UV maps: planar and sheared parametrisations with interior, edge and vertex "
         "barycentric queries. distinct = distinct (tag, input)")
 TRUSTED_BASE = [
@@ -102,7 +102,7 @@ def gen_flatten(rng):
         p2, f, kind = planar_disk(rng)
         cap = [[x, y, 0.05 * (x * x + y * y) / planar_disk.scale] for x, y in p2]      # gently curved at every scale
         return {"k": "c20.flatten", "verts": cap, "faces": f, "kind": "curved:" + kind, "flat": None, "expect": "ok", "moved": pose(rng, cap, aa, t)}
-    kind = rng.choice(["box", "annulus", "two", "fin"])
+    kind = rng.choice(["box", "annulus", "two", "fin", "bowtie", "bowtie", "disk+box"])
     if kind == "box":
         verts = [[float(i & 1), float((i >> 1) & 1), float((i >> 2) & 1)] for i in range(8)]
         f = [[0, 2, 1], [1, 2, 3], [4, 5, 6], [5, 7, 6], [0, 1, 4], [1, 5, 4], [2, 6, 3], [3, 6, 7], [0, 4, 2], [2, 4, 6], [1, 3, 5], [3, 7, 5]]
@@ -114,6 +114,25 @@ def gen_flatten(rng):
         q2, g = grid(rng, 2, 2, jitter=0.1)
         verts = [[x, y, 0.0] for x, y in p2] + [[x + 10, y, 0.0] for x, y in q2]
         f = f + [[a + len(p2) for a in ff] for ff in g]
+    elif kind == "bowtie":
+        # two fans that touch only at vertex 0: one boundary walk through that vertex twice, not a disk
+        k = rng.choice([1, 2, 4])
+        verts, f = [[0.0, 0.0, 0.0]], []
+        for a0, a1 in ((math.radians(120), math.radians(240)), (math.radians(-60), math.radians(60))):
+            idx = []
+            for i in range(k + 1):
+                a = a0 + (a1 - a0) * i / k
+                verts.append([math.cos(a), math.sin(a), 0.0])
+                idx.append(len(verts) - 1)
+            f += [[0, idx[i], idx[i + 1]] for i in range(k)]
+        rng.shuffle(f)
+    elif kind == "disk+box":
+        # a disk and a closed box: a single boundary loop, but not a disk
+        p2, f = grid(rng, 2, 2, jitter=0.1)
+        verts = [[x, y, 0.0] for x, y in p2]
+        n0 = len(verts)
+        verts += [[10.0 + float(i & 1), float((i >> 1) & 1), float((i >> 2) & 1)] for i in range(8)]
+        f = f + [[a + n0 for a in ff] for ff in [[0, 2, 1], [1, 2, 3], [4, 5, 6], [5, 7, 6], [0, 1, 4], [1, 5, 4], [2, 6, 3], [3, 6, 7], [0, 4, 2], [2, 4, 6], [1, 3, 5], [3, 7, 5]]]
     else:
         verts = [[0.0, 0.0, 0.0], [1.0, 0.0, 0.0], [0.0, 1.0, 0.0], [1.0, 1.0, 0.0], [0.5, 0.5, 1.0]]
         f = [[0, 1, 2], [1, 3, 2], [1, 2, 4]]
